@@ -686,11 +686,14 @@ def evaluate__idiv_operator(self: XPathToken, context: ta.ContextType = None) ->
             return 1
         raise self.error('FOAR0002', err) from None
     else:
-        if result >= 0 or isinstance(op1, Decimal) or \
-                isinstance(op2, Decimal) or abs(op1) == abs(op2):
-            return int(result)
-        else:
-            return int(result) + 1
+        try:
+            if result >= 0 or isinstance(op1, Decimal) or \
+                    isinstance(op2, Decimal) or abs(op1) == abs(op2):
+                return int(result)
+            else:
+                return int(result) + 1
+        except OverflowError as err:
+            raise self.error('FOAR0002', err) from None
 
 
 # Resolve the intrinsic ambiguity of some infix operators
